@@ -127,6 +127,8 @@ def run(facts, chk, tier, only=None):
             else:
                 chk.violation('C20.iter', 'C20.iter:%s' % nm, where=CH + '::new', detail='violated: ' + why)
 
+    from . import skiter
+    chk.guard('C20.func', 'C20.func:counts', lambda: skiter.check_cov_counts(facts, chk, 'C20.func', tier))
     from . import c01
     chk.guard('C20.window', 'C20.window:run', lambda: c01.check_guards(facts, chk, 'C20.window'))
 
